@@ -16,6 +16,8 @@
  *                   create-eacces create-erofs create-enoent
  *                   write-enospc write-eio write-short-enospc
  * Masked kinds    : eintr-read eintr-write short-read short-write stat-fd-fail
+ *                   stat-fd-inflate (the size hint is 4096 too large, as for
+ *                   sysfs attributes: a reader must go by EOF, not by st_size)
  */
 #define _GNU_SOURCE
 #include <dlfcn.h>
@@ -190,7 +192,12 @@ int shim_statx(int dirfd, const char *path, int flags, unsigned int mask, void *
             logev("fstat", "", fd_path[dirfd], dirfd, -1, EIO, 1);
             errno = EIO; return -1;
         }
-        return (int)syscall(SYS_statx, dirfd, path, flags, mask, st);
+        long r0 = syscall(SYS_statx, dirfd, path, flags, mask, st);
+        if (r0 == 0 && st && dirfd >= 0 && dirfd < MAXFD && fd_live[dirfd] && !fd_is_out[dirfd] && plan_hit("stat-fd-inflate", fd_path[dirfd])) {
+            ((struct statx *)st)->stx_size += 4096;
+            logev("fstat", "", fd_path[dirfd], dirfd, 0, 0, 1);
+        }
+        return (int)r0;
     }
     if (!path) /* std's availability probe statx(0, NULL, 0, mask, NULL): not a file access */
         return (int)syscall(SYS_statx, dirfd, path, flags, mask, st);
